@@ -73,100 +73,25 @@ def run(ctx, report):
     r_tab = report.rule("R06-table", floor=20, what="results on the probe family equal the reference implementation")
     r_true = report.rule("R06-true", floor=20, what="BBAN-level check returns True or raises InvalidBBANChecksum, nothing else")
     r_verdict = report.rule("R06-bban-verdict", floor=20, what="BBAN.validate_national_checksum accepts a BBAN exactly when its check digits are the reference ones (probe BBANs, both polarities)")
-    ev = Evaluator(facts)
+    from ..par import replay, run_recorded_async
+    names = ["R06-fields", "R06-fit", "R06-table", "R06-true", "R06-bban-verdict"]
+    real = {"R06-fields": r_fields, "R06-fit": r_fit, "R06-table": r_tab, "R06-true": r_true, "R06-bban-verdict": r_verdict}
     bban_cls = prog.get("schwifty.bban.BBAN")
-    for r in sorted(national, key=lambda x: x.key):
-        cc = r.prefix
-        if cc not in reg.countries or r.name != "default":
-            continue
-        it = facts.interp()
-        obj = it.instantiate(r.cls, [], {}, None)
-        acc = accepts_of(it, obj)
-        fields = country_fields(reg, cc)
-        undefined = [c for c in acc if c not in fields]
-        r_fields.instance({"country": cc, "accepts": acc, "undefined": undefined})
-        if len(undefined) == len(acc):
-            r_fields.finding(f"{cc}:accepts", f"{r.cls.qualname} reads {acc} but {cc} publishes none of them", r.where)
-            continue
-        comps_v = [component_value(reg, cc, c) for c in acc]
-        exp_v = component_value(reg, cc, "national_checksum_digits")
-        # abstract exploration of validate: exceptions
-        _, outs = explore_method(facts, r, "validate", lambda it_, o: [list(comps_v), exp_v])
-        bad = [o for o in outs if o.kind == "raise" and not is_library_exc(prog, o.value)]
-        if bad:
-            e = bad[0].value
-            r_fields.finding(f"{cc}:validate-raises", f"{r.cls.qualname}.validate can raise {e.name} at {e.where} on a structure-conforming {cc} BBAN"
-                             + (f" (undefined field(s) {undefined} are passed as '')" if undefined else ""), r.where)
-        # fit
-        if cc in NAT.COMPUTE:
-            _, couts = explore_method(facts, r, "compute", lambda it_, o: [list(comps_v)])
-            lens = set()
-            for o in couts:
-                if o.kind == "return":
-                    lens |= result_lengths(o.value)
-            want = fields.get("national_checksum_digits")
-            r_fit.instance({"country": cc, "computed widths": sorted(lens), "field": want[:2] if want else None})
-            if want is None:
-                r_fit.finding(f"{cc}:field", f"{cc} computes national check digits but publishes no national_checksum_digits field", r.where)
-            else:
-                w = want[1] - want[0]
-                if lens != {w}:
-                    r_fit.finding(f"{cc}:width", f"{r.cls.qualname}.compute yields strings of length(s) {sorted(lens)}, the {cc} check-digit field is {w} wide "
-                                  "(placing it shifts or truncates the BBAN)", r.where)
-        # table: probes
-        ref = NAT.COMPUTE.get(cc)
-        vref = NAT.VERDICT.get(cc)
-        if ref is None and vref is None:
-            # registered for a country outside the 22 (already reported by R06-reg): no reference to compare with
-            continue
-        n = 0
-        mism = None
-        computed = []
-        for p in probes(fields, acc, ctx.seed, n_random=600 if ctx.tier == "thorough" else 24):
-            args = [p.get(c, "") for c in acc]
-            n += 1
-            if ref is not None:
-                want = ref(p)
-                got = ev.call(r.cls, "compute", [args])
-                if got[0] == "ret" and isinstance(got[1], str):
-                    computed.append((p, args, got[1]))
-                if want is None:
-                    ok = got[0] == "exc" and is_library_exc(prog, got[1])
-                else:
-                    ok = got == ("ret", want)
-                if not ok and mism is None:
-                    mism = (p, "compute", got, want)
-            else:
-                want = vref(p)
-                got = ev.call(r.cls, "validate", [args, p.get("national_checksum_digits", "")])
-                if got != ("ret", want) and mism is None:
-                    mism = (p, "validate", got, want)
-        if mism is None and computed:
-            # the verdict side: exactly the published digits are accepted among all values of the field
-            extra, mm = all_values_agreement(ev, r.cls, acc, computed)
-            n += extra
-            if mm is not None:
-                mism = (mm[0], "validate", ("ret", mm[1]), "acceptance of exactly the computed check digits")
-        r_tab.instance({"country": cc, "probes": n}, n=1)
-        if mism is not None:
-            p, meth, got, want = mism
-            shown = got[1] if got[0] == "ret" else f"raises {got[1].name}"
-            r_tab.finding(f"{cc}:{meth}", f"{r.cls.qualname}.{meth} gives {shown!r} for {cc} fields {_fmt(p, acc)}, the published algorithm gives "
-                          f"{'no valid check digit (library error)' if want is None else repr(want)}", r.where, witness=_fmt(p, acc))
-        # BBAN-level check
-        st = struct_positions(reg, cc)
-        _bban_level(ctx, r_true, cc, st, bban_cls, r)
-        _bban_verdicts(ctx, r_verdict, cc, fields, acc, bban_cls, ref, vref)
-
+    todo = sorted(national, key=lambda x: x.key)
+    # the per-country work runs in forked workers while this process builds the validator model below
+    facts.algorithm_table()
+    pending = run_recorded_async(names, lambda r, rules: _country(ctx, r, rules), todo)
+    from ..vmodel import IbanModel
+    from .. import iban_rules as IR
+    m = IbanModel(ctx, with_validate=True)
+    for recs, _ in pending.get():
+        replay(real, recs)
     # a country without algorithm: returns True without raising
     other = next((c for c in sorted(reg.countries) if c not in have and struct_positions(reg, c) and reg.positions(c)), None)
     if other:
         _bban_level(ctx, r_true, other, struct_positions(reg, other), bban_cls, None)
 
     # ------------------------------------------------------------------ R06-mono / R06-flag (validator decision model)
-    from ..vmodel import IbanModel
-    from .. import iban_rules as IR
-    m = IbanModel(ctx, with_validate=True)
     IR.rule_accept(m, report, "R06-flag-on", entries=[("init_bban", True), ("validate_bban", True)])
     IR.rule_accept(m, report, "R06-flag-off", entries=[("init", False), ("validate", False)])
     report.analysed["validator_paths"] = {k: len(v) for k, v in m.paths.items()}
@@ -176,6 +101,96 @@ def run(ctx, report):
         "a special case keyed on two or more positions at once is outside it",
     ]
     report.trusted.append("sv/tables/national.py (reference algorithms)")
+
+
+def _country(ctx, r, rules):
+    """Everything decided per country (runs in a forked worker; rules are recording stand-ins)."""
+    prog, facts, reg = ctx.program, ctx.facts, ctx.registry
+    r_fields, r_fit, r_tab, r_true, r_verdict = (rules[n] for n in ("R06-fields", "R06-fit", "R06-table", "R06-true", "R06-bban-verdict"))
+    ev = Evaluator(facts)
+    bban_cls = prog.get("schwifty.bban.BBAN")
+    cc = r.prefix
+    if cc not in reg.countries or r.name != "default":
+        return
+    it = facts.interp()
+    obj = it.instantiate(r.cls, [], {}, None)
+    acc = accepts_of(it, obj)
+    fields = country_fields(reg, cc)
+    undefined = [c for c in acc if c not in fields]
+    r_fields.instance({"country": cc, "accepts": acc, "undefined": undefined})
+    if len(undefined) == len(acc):
+        r_fields.finding(f"{cc}:accepts", f"{r.cls.qualname} reads {acc} but {cc} publishes none of them", r.where)
+        return
+    comps_v = [component_value(reg, cc, c) for c in acc]
+    exp_v = component_value(reg, cc, "national_checksum_digits")
+    # abstract exploration of validate: exceptions
+    _, outs = explore_method(facts, r, "validate", lambda it_, o: [list(comps_v), exp_v])
+    bad = [o for o in outs if o.kind == "raise" and not is_library_exc(prog, o.value)]
+    if bad:
+        e = bad[0].value
+        r_fields.finding(f"{cc}:validate-raises", f"{r.cls.qualname}.validate can raise {e.name} at {e.where} on a structure-conforming {cc} BBAN"
+                         + (f" (undefined field(s) {undefined} are passed as '')" if undefined else ""), r.where)
+    # fit
+    if cc in NAT.COMPUTE:
+        _, couts = explore_method(facts, r, "compute", lambda it_, o: [list(comps_v)])
+        lens = set()
+        for o in couts:
+            if o.kind == "return":
+                lens |= result_lengths(o.value)
+        want = fields.get("national_checksum_digits")
+        r_fit.instance({"country": cc, "computed widths": sorted(lens), "field": want[:2] if want else None})
+        if want is None:
+            r_fit.finding(f"{cc}:field", f"{cc} computes national check digits but publishes no national_checksum_digits field", r.where)
+        else:
+            w = want[1] - want[0]
+            if lens != {w}:
+                r_fit.finding(f"{cc}:width", f"{r.cls.qualname}.compute yields strings of length(s) {sorted(lens)}, the {cc} check-digit field is {w} wide "
+                              "(placing it shifts or truncates the BBAN)", r.where)
+    # table: probes
+    ref = NAT.COMPUTE.get(cc)
+    vref = NAT.VERDICT.get(cc)
+    if ref is None and vref is None:
+        # registered for a country outside the 22 (already reported by R06-reg): no reference to compare with
+        return
+    n = 0
+    mism = None
+    computed = []
+    for p in probes(fields, acc, ctx.seed, n_random=600 if ctx.tier == "thorough" else 24):
+        args = [p.get(c, "") for c in acc]
+        n += 1
+        if ref is not None:
+            want = ref(p)
+            got = ev.call(r.cls, "compute", [args])
+            if got[0] == "ret" and isinstance(got[1], str):
+                computed.append((p, args, got[1]))
+            if want is None:
+                ok = got[0] == "exc" and is_library_exc(prog, got[1])
+            else:
+                ok = got == ("ret", want)
+            if not ok and mism is None:
+                mism = (p, "compute", got, want)
+        else:
+            want = vref(p)
+            got = ev.call(r.cls, "validate", [args, p.get("national_checksum_digits", "")])
+            if got != ("ret", want) and mism is None:
+                mism = (p, "validate", got, want)
+    if mism is None and computed:
+        # the verdict side: exactly the published digits are accepted among all values of the field
+        extra, mm = all_values_agreement(ev, r.cls, acc, computed)
+        n += extra
+        if mm is not None:
+            mism = (mm[0], "validate", ("ret", mm[1]), "acceptance of exactly the computed check digits")
+    r_tab.instance({"country": cc, "probes": n}, n=1)
+    if mism is not None:
+        p, meth, got, want = mism
+        shown = got[1] if got[0] == "ret" else f"raises {got[1].name}"
+        r_tab.finding(f"{cc}:{meth}", f"{r.cls.qualname}.{meth} gives {shown!r} for {cc} fields {_fmt(p, acc)}, the published algorithm gives "
+                      f"{'no valid check digit (library error)' if want is None else repr(want)}", r.where, witness=_fmt(p, acc))
+    # BBAN-level check
+    st = struct_positions(reg, cc)
+    _bban_level(ctx, r_true, cc, st, bban_cls, r)
+    _bban_verdicts(ctx, r_verdict, cc, fields, acc, bban_cls, ref, vref)
+
 
 
 def _fmt(p, acc):
